@@ -5,8 +5,6 @@ CONSTANTS
   MaxFeat = 2
   EmitMod = 149
 INVARIANT ClausesHold
-INVARIANT RepairedHolds
-INVARIANT KFNarrow
 INVARIANT ExemptHolds
 INVARIANT FeedBackDefinitional
 INVARIANT FeedBackBetween
